@@ -161,7 +161,7 @@ def _replay_case(case):
         data = b"\xb5\x62" + bytes.fromhex(g["cid"]) + bytes.fromhex(g["len"]) + bytes(g["n"]) + bytes.fromhex(g["ck"])
         return [(k.replace("|nonempty", "|oversize"), d) for k, d in judge_parse(data, case["mode"], case["validate"], case["pbf"])[1]]
     if case["kind"] == "parse":
-        return judge_parse(bytes.fromhex(case["data"]), case["mode"], case["validate"], case["pbf"])[1]
+        return [(k + case.get("suffix", ""), d) for k, d in judge_parse(bytes.fromhex(case["data"]), case["mode"], case["validate"], case["pbf"])[1]]
     if case.get("stream_kind"):
         return [(k + f"|stream={case['stream_kind']}", d) for k, d in judge_stream(bytes.fromhex(case["data"]), case["cfg"], case["stream_kind"])[1]]
     return judge_stream(bytes.fromhex(case["data"]), case["cfg"])[1]
@@ -237,6 +237,24 @@ def _eval_block(block, acc):
                                 acc.outcomes[("big", va, st)] += 1
                                 for key, detail in out:
                                     acc.violation(key.replace("|nonempty", "|oversize"), {"kind": "parse", "data_gen": {"n": n, "len": lenfield.hex(), "cid": cid.hex(), "ck": data[-2:].hex()}, "mode": mode, "validate": va, "pbf": 1}, detail)
+    elif kind == "Pcfg":
+        # configuration key/value messages: every value of the key ID's top byte (size code, reserved bit) x group
+        # in / not in the database x 0..9 value bytes x a second item; parse and stream, all modes
+        for top in range(256) if block[1] == "top" else ():
+            for rest in (0x110001, 0x910001, 0xFF0FFF, 0x000000):
+                kid = (top << 24) | rest
+                for nval in range(0, 10):
+                    body = kid.to_bytes(4, "little") + bytes(range(1, nval + 1))
+                    for cid, hdr in (((0x06, 0x8B), b"\x01\x00\x00\x00"), ((0x06, 0x8A), b"\x00\x01\x00\x00"), ((0x06, 0x8C), b"\x00\x01\x00\x00")):
+                        data = ref.frame(cid[0], cid[1], hdr + body)
+                        for mode in range(4):
+                            for pbf in (1, 0):
+                                st, out = judge_parse(data, mode, 1, pbf)
+                                acc.evaluations += 1
+                                acc.transitions += 1
+                                acc.outcomes[("cfgkey", top >> 4, st)] += 1
+                                for key, detail in out:
+                                    acc.violation(key + "|config_key_top_nibble=%x" % (top >> 4), {"kind": "parse", "data": data.hex(), "mode": mode, "validate": 1, "pbf": pbf, "suffix": "|config_key_top_nibble=%x" % (top >> 4)}, detail)
     elif kind == "Pshort":
         for n in range(0, block[1]):
             for t in itertools.product(SIGMA_P, repeat=n):
@@ -373,6 +391,7 @@ def run_tier(tier, t0):
     blocks += [("B", cid.hex(), q) for cid in FS.known_clsids()]
     blocks.append(("C",))
     blocks.append(("Pshort", 2))
+    blocks.append(("Pcfg", "top"))
     blocks.append(("Pbig",))
     blocks += [("P", list(p), LP) for p in itertools.product(range(8), repeat=2)]
     blocks += [("S", list(b), "full") for b in streams.byte_blocks(LS_full)]
@@ -396,6 +415,7 @@ def run_tier(tier, t0):
         ),
         assumptions=[
             f"a single call using more than {WATCHDOG_S}s of CPU time is a hang (slowest legitimate case measured: ~4 s)",
+            "CFG-VALGET / CFG-VALSET / CFG-VALDEL frames with every value 0..255 of the key ID's top byte x 4 group/item patterns x 0..9 value bytes, all modes, both views",
             "every boundary-length frame and every content-refused frame (NMEATypeError, UBXTypeError, UBXMessageError, RTCMTypeError) between every pair of 7 neighbour tokens x 6 configurations",
             "token sequences of <= 2 through a pipe-like stream object (seek/tell exist and raise), a read/readline-only object and a BufferedReader x 10 configurations incl. every single-protocol-excluded mask",
             "runs of 1,100 and 3,000 consecutive discarded messages (rejected, or filtered out by protfilter) followed by one good frame",
